@@ -118,6 +118,9 @@ def invariant(ctx, imgr, probe, step):
     pt = np.array([[br[0] + (i + 0.5) * s, pr[0] + (j + 0.5) * s]], dtype=float)
     img = np.asarray(ctx.call(imgr.transform, pt, skew=False))
     ctx.require(img.shape == tuple(res), "image_shape_ne_resolution", lambda: tag + "image shape %s, resolution %s" % (img.shape, res))
+    coll = ctx.call(imgr.transform, [pt, np.zeros((0, 2))], skew=False)
+    ctx.require(len(coll) == 2 and all(np.asarray(c).shape == tuple(res) for c in coll), "image_shape_ne_resolution",
+                lambda: tag + "images of a collection [diagram, empty diagram] have shapes %s, resolution %s" % ([np.asarray(c).shape for c in coll], res))
     ok = abs(img[i, j] - 1.0) <= 1e-6 and abs(img.sum() - img[i, j]) <= 1e-6
     ctx.require(ok, "pixel_misplaced", lambda: tag + "unit point centred in pixel (%d,%d) of size %r gives img[i,j]=%r, total %r (resolution %s, ranges %s %s)"
                 % (i, j, s, img[i, j], img.sum(), res, br, pr))
